@@ -269,6 +269,14 @@ func (in *Interp) call(st *State, call *ast.CallExpr) Val {
 				st.bufs[v.ID].Extent = LenOf(p)
 				return v
 			}
+		case "Next", "Grow", "Truncate":
+			// (*bytes.Buffer).Next / Grow / Truncate panic on a negative count
+			if sig.Recv() != nil && len(call.Args) == 1 {
+				n := in.evalInt(st, call.Args[0])
+				facts := append([]Fact(nil), st.facts...)
+				in.addSite(&Site{Kind: "count", Buf: "bytes.Buffer", Origin: "lib", Pos: call.Pos(), Text: in.render(st, call), Fn: in.fi.Key, Guard: in.guard(), Expr: call,
+					Needs: []Need{{A: Const(0), B: n, What: "count not negative"}}, Facts: facts})
+			}
 		case "Reset":
 			if ov, ok := recvVal.(ObjV); ok {
 				in.recordStore(st, ov.Path+".Bytes()", "reset", "", UnkV{}, call.Pos())
@@ -673,6 +681,15 @@ func (in *Interp) appendCall(st *State, call *ast.CallExpr) Val {
 			nb.Recs = append(nb.Recs, &Rec{Off: Const(0), W: baseLen, Kind: "bytes", Src: bb.Src, Pos: call.Pos(), Guard: in.guard()})
 			nb.Src = bb.Src
 			nb.SrcType = "field-append"
+			// … and, where the field's array has spare capacity, the appended bytes are written into it
+			if len(call.Args) > 1 {
+				cr := &CallRec{Pos: call.Pos(), Guard: in.guard(), Text: "append-onto-field:" + bb.Src}
+				for i := in; i != nil; i = i.parent {
+					if i.parent == nil {
+						i.Calls = append(i.Calls, cr)
+					}
+				}
+			}
 		} else {
 			nb.Recs = append(nb.Recs, bb.Recs...)
 		}
